@@ -140,6 +140,7 @@ inline void note_env_stats(Stats &st) {
 /// Draws n: boundary, small, medium, or large (only large activates E1).  Returns n and sets `large`.
 inline size_t draw_n(Rng &cfg, size_t eps, const GenCtx &g, bool &large, unsigned large_permille) {
     large = false;
+    if (g.tier == "thorough") large_permille *= 4; // the long budget goes into the runs that activate the simulated team
     if (g.tsan || cfg.chance(large_permille)) {
         large = true;
         size_t hi = g.tier == "thorough" ? (cfg.chance(100) ? 1000000 : 300000) : 120000;
